@@ -361,7 +361,7 @@ func getFileStatsFromFilePatches(filePatches []fdiff.FilePatch) FileStats {
 
 	for _, fp := range filePatches {
 		// ignore empty patches (binary files, submodule refs updates)
-		if len(fp.Chunks()) == 0 {
+		if fp.IsBinary() {
 			continue
 		}
 
